@@ -8,7 +8,7 @@
 # ---------------------------------------------------------------------------
 from warnings import warn
 
-from z3 import Optimize, Or, Solver, is_true, unsat, z3
+from z3 import Optimize, Or, Solver, is_true, sat, unsat, z3
 
 from inference.conditional import Conditional
 from inference.conditional_z3 import Conditional_z3
@@ -185,6 +185,9 @@ class SystemWZ3(Inference):
             check = opt.check()
             if check == unsat:
                 return xi_i_set
+            if check != sat:
+                # 'unknown': the optimiser gave up (its timeout expired); there is no model
+                raise TimeoutError
             m = opt.model()
             xi_i: frozenset[Conditional_z3] = frozenset(
                 [c for c in part if is_true(m.eval(c.make_A_then_not_B()))]
